@@ -4,15 +4,11 @@
 package c08
 
 import (
-	"bufio"
-	"encoding/json"
 	"fmt"
 	"os"
-	"os/exec"
 	"runtime"
 	"slices"
 	"strings"
-	"sync"
 	"sync/atomic"
 	"time"
 
@@ -21,6 +17,7 @@ import (
 	"verif/internal/echx"
 	"verif/internal/ev"
 	"verif/internal/tlsref"
+	"verif/internal/workers"
 )
 
 const (
@@ -49,7 +46,7 @@ type result struct {
 	Idx     int    `json:"idx"`
 	Family  string `json:"family"`
 	Desc    string `json:"desc"`
-	Keys    bool   `json:"keys"`
+	Keys    bool   `json:"with_keys"`
 	Outcome string `json:"outcome"`
 	Viol    string `json:"violation,omitempty"` // key
 	What    string `json:"what,omitempty"`
@@ -118,8 +115,7 @@ func baseOuter() *tlsref.Hello {
 }
 
 // generate enumerates all cases of the tier deterministically.
-func generate(thorough bool) []kase {
-	var out []kase
+func generate(thorough bool, emit func(kase)) {
 	key := echx.NewKey("c08", 42, echx.AllSuites, pubName)
 	alts := interpretedAlternatives()
 	fixed := []tlsref.Ext{tlsref.SupportedGroups(), tlsref.KeyShare(32), tlsref.SigAlgs()}
@@ -156,7 +152,7 @@ func generate(thorough bool) []kase {
 		}
 		h.Exts = append(h.Exts, fixed[1:]...)
 		for _, k := range []bool{false, true} {
-			out = append(out, kase{Family: "outer-ext-seq", Desc: strings.Join(names, ","), Keys: k, First: h.Record()})
+			emit(kase{Family: "outer-ext-seq", Desc: strings.Join(names, ","), Keys: k, First: h.Record()})
 		}
 	}
 	// F2b: the same alternatives inside a SEALED inner hello (so that the inner parsing paths run)
@@ -181,16 +177,16 @@ func generate(thorough bool) []kase {
 				names = append(names, alts[i].name)
 			}
 			b := sealed(inner, nil, nil)
-			out = append(out, kase{Family: "sealed-inner-ext-seq", Desc: strings.Join(names, ","), Keys: true, First: b.Outer.Record()})
+			emit(kase{Family: "sealed-inner-ext-seq", Desc: strings.Join(names, ","), Keys: true, First: b.Outer.Record()})
 		}
 	}
 	// F2c: reference lists of a sealed inner against outer lists (missing, repeated, huge)
 	for _, refs := range [][]uint16{{}, {51}, {51, 51}, {43, 51, 13, 10, 45}, {45, 43}, {0xfe0d}, {0xfd00}, {0x7777}, {0}, {0, 0, 0, 0}} {
 		inner := append(echx.StdEncInner(innerName, nil, false)[:2:2], tlsref.OuterExtensions(refs...))
 		b := sealed(inner, nil, nil)
-		out = append(out, kase{Family: "sealed-inner-refs", Desc: fmt.Sprint(refs), Keys: true, First: b.Outer.Record()})
+		emit(kase{Family: "sealed-inner-refs", Desc: fmt.Sprint(refs), Keys: true, First: b.Outer.Record()})
 		b = sealed(append(slices.Clone(inner), tlsref.OuterExtensions(refs...)), nil, nil)
-		out = append(out, kase{Family: "sealed-inner-refs-twice", Desc: fmt.Sprint(refs), Keys: true, First: b.Outer.Record()})
+		emit(kase{Family: "sealed-inner-refs-twice", Desc: fmt.Sprint(refs), Keys: true, First: b.Outer.Record()})
 	}
 	{ // references to a LARGE outer extension (15 kB), repeated: the expansion must not be multiplied
 		bigExt := tlsref.Opaque(0x5a5a, 15000)
@@ -200,10 +196,10 @@ func generate(thorough bool) []kase {
 				many = append(many, 0x5a5a)
 			}
 			b := sealed(append(echx.StdEncInner(innerName, nil, false), tlsref.OuterExtensions(many...)), []tlsref.Ext{bigExt}, nil)
-			out = append(out, kase{Family: "sealed-inner-refs-big", Desc: fmt.Sprintf("%dx 15kB extension", n), Keys: true, First: b.Outer.Record()})
+			emit(kase{Family: "sealed-inner-refs-big", Desc: fmt.Sprintf("%dx 15kB extension", n), Keys: true, First: b.Outer.Record()})
 		}
 		b := sealed(append(echx.StdEncInner(innerName, nil, false), tlsref.OuterExtensions(0x5a5a)), []tlsref.Ext{bigExt}, nil)
-		out = append(out, kase{Family: "sealed-inner-refs-big", Desc: "1x 15kB extension (legal)", Keys: true, First: b.Outer.Record()})
+		emit(kase{Family: "sealed-inner-refs-big", Desc: "1x 15kB extension (legal)", Keys: true, First: b.Outer.Record()})
 	}
 	{ // 127 references to the same extension / to many extensions
 		var many []uint16
@@ -211,7 +207,7 @@ func generate(thorough bool) []kase {
 			many = append(many, 51)
 		}
 		b := sealed(append(echx.StdEncInner(innerName, nil, false)[:2:2], tlsref.OuterExtensions(many...)), nil, nil)
-		out = append(out, kase{Family: "sealed-inner-refs", Desc: "127x key_share", Keys: true, First: b.Outer.Record()})
+		emit(kase{Family: "sealed-inner-refs", Desc: "127x key_share", Keys: true, First: b.Outer.Record()})
 	}
 
 	// F1: length-field values {0, true-1, true+1, max} at every length field; all pairs of fields
@@ -240,39 +236,39 @@ func generate(thorough bool) []kase {
 		for i, a := range lfs {
 			for _, m := range deltas(msg, a[0], a[1]) {
 				for _, k := range []bool{false, true} {
-					out = append(out, kase{Family: "length-field", Desc: fmt.Sprintf("%s off%d", bname, a[0]), Keys: k, First: tlsref.Record(22, 0x0301, m)})
+					emit(kase{Family: "length-field", Desc: fmt.Sprintf("%s off%d", bname, a[0]), Keys: k, First: tlsref.Record(22, 0x0301, m)})
 				}
 				if !thorough && bi != 1 {
 					continue
 				}
 				for _, b := range lfs[i+1:] {
 					for _, m2 := range deltas(m, b[0], b[1]) {
-						out = append(out, kase{Family: "length-field-pair", Desc: fmt.Sprintf("%s off%d+off%d", bname, a[0], b[0]), Keys: true, First: tlsref.Record(22, 0x0301, m2)})
+						emit(kase{Family: "length-field-pair", Desc: fmt.Sprintf("%s off%d+off%d", bname, a[0], b[0]), Keys: true, First: tlsref.Record(22, 0x0301, m2)})
 					}
 				}
 			}
 		}
 		// the message cut at every byte, record length consistent; and record length lying (longer than data => transport EOF)
 		for cut := 0; cut <= len(msg); cut++ {
-			out = append(out, kase{Family: "message-cut", Desc: fmt.Sprintf("%s cut%d", bname, cut), Keys: true, First: tlsref.Record(22, 0x0301, msg[:cut])})
+			emit(kase{Family: "message-cut", Desc: fmt.Sprintf("%s cut%d", bname, cut), Keys: true, First: tlsref.Record(22, 0x0301, msg[:cut])})
 		}
 	}
 	// first-record header variants: every content type x length {0,1,5}, huge declared lengths
 	for ct := 0; ct < 256; ct++ {
 		for _, n := range []int{0, 1, 5} {
-			out = append(out, kase{Family: "first-record-type", Desc: fmt.Sprintf("type%d len%d", ct, n), Keys: ct%2 == 0, First: tlsref.Record(byte(ct), 0x0303, tlsref.DetBytes("x", n))})
+			emit(kase{Family: "first-record-type", Desc: fmt.Sprintf("type%d len%d", ct, n), Keys: ct%2 == 0, First: tlsref.Record(byte(ct), 0x0303, tlsref.DetBytes("x", n))})
 		}
 	}
 	for _, l := range []int{16384, 16385, 16640, 16641, 65535} {
 		hdr := []byte{22, 3, 1, byte(l >> 8), byte(l)}
-		out = append(out, kase{Family: "first-record-declared-length", Desc: fmt.Sprint(l), Keys: true, First: append(hdr, tlsref.DetBytes("body", min(l, 200))...)})
-		out = append(out, kase{Family: "first-record-declared-length-full", Desc: fmt.Sprint(l), Keys: true, First: append(hdr, make([]byte, l)...)})
+		emit(kase{Family: "first-record-declared-length", Desc: fmt.Sprint(l), Keys: true, First: append(hdr, tlsref.DetBytes("body", min(l, 200))...)})
+		emit(kase{Family: "first-record-declared-length-full", Desc: fmt.Sprint(l), Keys: true, First: append(hdr, make([]byte, l)...)})
 	}
 	for _, mt := range []byte{0, 1, 2, 11, 255} {
 		for cut := 0; cut <= 8; cut++ {
 			m := slices.Clone(plain.Msg())
 			m[0] = mt
-			out = append(out, kase{Family: "first-message-type", Desc: fmt.Sprintf("type%d cut%d", mt, cut), Keys: true, First: tlsref.Record(22, 0x0301, m[:min(len(m), 4+cut)])})
+			emit(kase{Family: "first-message-type", Desc: fmt.Sprintf("type%d cut%d", mt, cut), Keys: true, First: tlsref.Record(22, 0x0301, m[:min(len(m), 4+cut)])})
 		}
 	}
 
@@ -291,47 +287,47 @@ func generate(thorough bool) []kase {
 	sh := echx.ServerHelloRecord(sid)
 	for _, f := range firsts {
 		for _, a := range recAlphabet {
-			out = append(out, kase{Family: "record-after-hello", Desc: f.name, Keys: true, First: f.rec, Ops: []op{a}})
+			emit(kase{Family: "record-after-hello", Desc: f.name, Keys: true, First: f.rec, Ops: []op{a}})
 			for _, b := range recAlphabet {
 				if !thorough && (a.Dir == b.Dir) {
 					continue
 				}
-				out = append(out, kase{Family: "two-records-after-hello", Desc: f.name, Keys: true, First: f.rec, Ops: []op{a, b}})
+				emit(kase{Family: "two-records-after-hello", Desc: f.name, Keys: true, First: f.rec, Ops: []op{a, b}})
 			}
 		}
 		// ServerHello / HRR: every truncation (consistent record length), every handshake-length lie, type byte variants
 		for _, base := range [][]byte{sh, hrr} {
 			body := base[5:]
 			for cut := 0; cut <= len(body); cut++ {
-				out = append(out, kase{Family: "serverhello-cut", Desc: fmt.Sprintf("%s cut%d", f.name, cut), Keys: true, First: f.rec, Ops: []op{{Dir: 'b', Data: tlsref.Record(22, 0x0303, body[:cut])}}})
+				emit(kase{Family: "serverhello-cut", Desc: fmt.Sprintf("%s cut%d", f.name, cut), Keys: true, First: f.rec, Ops: []op{{Dir: 'b', Data: tlsref.Record(22, 0x0303, body[:cut])}}})
 			}
 			for _, lf := range [][2]int{{1, 3}, {4 + 2 + 32, 1}, {len(body) - 2 - int(body[len(body)-1]) - 0, 0}} {
 				if lf[1] == 0 {
 					continue
 				}
 				for _, m := range deltas(body, lf[0], lf[1]) {
-					out = append(out, kase{Family: "serverhello-length-field", Desc: fmt.Sprintf("%s off%d", f.name, lf[0]), Keys: true, First: f.rec, Ops: []op{{Dir: 'b', Data: tlsref.Record(22, 0x0303, m)}}})
+					emit(kase{Family: "serverhello-length-field", Desc: fmt.Sprintf("%s off%d", f.name, lf[0]), Keys: true, First: f.rec, Ops: []op{{Dir: 'b', Data: tlsref.Record(22, 0x0303, m)}}})
 				}
 			}
 			// split across two Write calls at every offset (partial record retained)
 			for split := 1; split < len(base); split += 3 {
-				out = append(out, kase{Family: "serverhello-split", Desc: fmt.Sprintf("%s split%d", f.name, split), Keys: true, First: f.rec, Ops: []op{{Dir: 'b', Data: base[:split]}, {Dir: 'b', Data: base[split:]}}})
+				emit(kase{Family: "serverhello-split", Desc: fmt.Sprintf("%s split%d", f.name, split), Keys: true, First: f.rec, Ops: []op{{Dir: 'b', Data: base[:split]}, {Dir: 'b', Data: base[split:]}}})
 			}
 		}
 		// backend declares huge / illegal record lengths, writes in big and tiny pieces
 		for _, l := range []int{16640, 16641, 65535} {
 			hdr := []byte{23, 3, 3, byte(l >> 8), byte(l)}
-			out = append(out, kase{Family: "backend-declared-length", Desc: fmt.Sprintf("%s %d", f.name, l), Keys: true, First: f.rec, Ops: []op{{Dir: 'b', Data: hdr}, {Dir: 'b', Data: make([]byte, 40000)}, {Dir: 'b', Data: make([]byte, 40000)}}})
+			emit(kase{Family: "backend-declared-length", Desc: fmt.Sprintf("%s %d", f.name, l), Keys: true, First: f.rec, Ops: []op{{Dir: 'b', Data: hdr}, {Dir: 'b', Data: make([]byte, 40000)}, {Dir: 'b', Data: make([]byte, 40000)}}})
 			hdr2 := []byte{22, 3, 3, byte(l >> 8), byte(l)}
-			out = append(out, kase{Family: "backend-declared-length-hs", Desc: fmt.Sprintf("%s %d", f.name, l), Keys: true, First: f.rec, Ops: []op{{Dir: 'b', Data: append(hdr2, make([]byte, 39000)...)}, {Dir: 'b', Data: make([]byte, 39000)}}})
+			emit(kase{Family: "backend-declared-length-hs", Desc: fmt.Sprintf("%s %d", f.name, l), Keys: true, First: f.rec, Ops: []op{{Dir: 'b', Data: append(hdr2, make([]byte, 39000)...)}, {Dir: 'b', Data: make([]byte, 39000)}}})
 		}
 		// many small complete records in one large Write, and a long run of partial writes: retained memory must stay bounded
 		var many []byte
 		for i := 0; i < 3000; i++ {
 			many = append(many, tlsref.Record(20, 0x0303, []byte{1})...)
 		}
-		out = append(out, kase{Family: "backend-many-small-records", Desc: f.name, Keys: true, First: f.rec, Ops: []op{{Dir: 'b', Data: many}, {Dir: 'b', Data: many}, {Dir: 'b', Data: many[:7]}}})
-		out = append(out, kase{Family: "client-many-small-records", Desc: f.name, Keys: true, First: append(slices.Clone(f.rec), many...), Ops: []op{{Dir: 'c'}, {Dir: 'c'}, {Dir: 'c'}}})
+		emit(kase{Family: "backend-many-small-records", Desc: f.name, Keys: true, First: f.rec, Ops: []op{{Dir: 'b', Data: many}, {Dir: 'b', Data: many}, {Dir: 'b', Data: many[:7]}}})
+		emit(kase{Family: "client-many-small-records", Desc: f.name, Keys: true, First: append(slices.Clone(f.rec), many...), Ops: []op{{Dir: 'c'}, {Dir: 'c'}, {Dir: 'c'}}})
 	}
 	// F3b: after HRR: CH2 variants (every truncation, every length field +-1/0/max, type byte, garbage)
 	ch2 := echx.Spec{Key: key, Suite: tlsref.Suite{KDF: 1, AEAD: 1}, Outer: good.Outer, EchIdx: len(good.Outer.Exts) - 1,
@@ -347,7 +343,7 @@ func generate(thorough bool) []kase {
 		msg2 := b2.Outer.Msg()
 		pre := []op{{Dir: 'c'}, {Dir: 'b', Data: hrr}}
 		add := func(desc string, rec []byte) {
-			out = append(out, kase{Family: "retry-hello", Desc: desc, Keys: true, First: first, Ops: append(slices.Clone(pre), op{Dir: 'c', Data: rec})})
+			emit(kase{Family: "retry-hello", Desc: desc, Keys: true, First: first, Ops: append(slices.Clone(pre), op{Dir: 'c', Data: rec})})
 		}
 		add("valid", tlsref.Record(22, 0x0303, msg2))
 		for cut := 0; cut <= len(msg2); cut++ {
@@ -372,7 +368,6 @@ func generate(thorough bool) []kase {
 		add("plain-second-hello", plain.Record())
 		add("first-hello-again", first)
 	}
-	return out
 }
 
 func enumSeq(k, maxLen int, f func([]int)) {
@@ -521,129 +516,40 @@ func errClassShort(err error) string {
 // Worker runs shard i of n and prints one JSON line per case that is a violation,
 // plus a summary line; it is executed with GOMAXPROCS=1 under ulimit -v.
 func Worker(tier string, shard, nshards int) {
-	runtime.GOMAXPROCS(1)
-	cases := generate(tier == "thorough")
 	keys := echx.Keys(echx.NewKey("c08", 42, echx.AllSuites, pubName))
-	w := bufio.NewWriter(os.Stdout)
-	defer w.Flush()
-	// hang watchdog
-	go func() {
-		for {
-			time.Sleep(500 * time.Millisecond)
-			if st := curStart.Load(); st != 0 && time.Since(time.Unix(0, st)) > 20*time.Second {
-				idx := int(curCase.Load())
-				k := cases[idx]
-				b, _ := json.Marshal(result{Idx: idx, Family: k.Family, Desc: k.Desc, Keys: k.Keys, Outcome: "hang", Viol: "hang:" + k.Family,
-					What: "call did not return within 20 s (normal duration: microseconds)", First: echx.Hex(k.First)})
-				fmt.Fprintf(os.Stdout, "%s\n", b)
-				os.Exit(3)
-			}
-		}
-	}()
-	outcomes := map[string]int{}
-	n := 0
-	for idx := shard; idx < len(cases); idx += nshards {
-		curCase.Store(int64(idx))
-		curStart.Store(time.Now().UnixNano())
-		r := runCase(idx, cases[idx], keys, true)
-		if r.Viol != "" && strings.HasPrefix(r.Viol, "memory:") {
-			// confirm: the same case must exceed the budget again
-			r2 := runCase(idx, cases[idx], keys, true)
-			if !strings.HasPrefix(r2.Viol, "memory:") {
-				r.Viol, r.What = "", ""
-			}
-		}
-		curStart.Store(0)
-		n++
-		outcomes[r.Family+" -> "+r.Outcome]++
-		if r.Viol != "" {
-			b, _ := json.Marshal(r)
-			fmt.Fprintf(w, "%s\n", b)
-		}
-		if idx%9973 == shard {
-			b, _ := json.Marshal(map[string]any{"sample": map[string]any{"family": r.Family, "desc": r.Desc, "keys": r.Keys, "first": echx.Hex(cases[idx].First), "outcome": r.Outcome}})
-			fmt.Fprintf(w, "%s\n", b)
-		}
-	}
-	b, _ := json.Marshal(map[string]any{"summary": true, "cases": n, "total": len(cases), "outcomes": outcomes})
-	fmt.Fprintf(w, "%s\n", b)
+	idx := 0
+	workers.ServeIter(shard, nshards, 20*time.Second, func(yield func(describe func() any, run func() workers.Result)) {
+		generate(tier == "thorough", func(k kase) {
+			i := idx
+			idx++
+			yield(func() any {
+				return map[string]any{"family": k.Family, "desc": k.Desc, "keys": k.Keys, "first": echx.Hex(k.First)}
+			}, func() workers.Result {
+				r := runCase(i, k, keys, true)
+				if r.Viol != "" && strings.HasPrefix(r.Viol, "memory:") {
+					// confirm: the same case must exceed the budget again
+					if r2 := runCase(i, k, keys, true); !strings.HasPrefix(r2.Viol, "memory:") {
+						r.Viol, r.What = "", ""
+					}
+				}
+				res := workers.Result{Outcome: r.Family + " -> " + r.Outcome, Viol: r.Viol, What: r.What}
+				if r.Viol != "" {
+					res.Replay = r
+				}
+				if i%9973 == shard {
+					res.Sample = map[string]any{"family": r.Family, "desc": r.Desc, "keys": r.Keys, "first": echx.Hex(k.First), "outcome": r.Outcome}
+				}
+				return res
+			})
+		})
+	})
 }
 
 // Run is the parent: spawns the workers and aggregates.
 func Run(r *ev.Run) {
 	r.Rule("grammar-bounded exhaustive enumeration (E1) in 16 memory-capped (ulimit -v 4 GiB) single-threaded worker processes with a 20 s hang watchdog: (a) every sequence of <=2 (thorough 3) alternatives out of 47 well-/ill-formed variants of the extensions the parser interprets (SNI, ALPN, supported_versions, ech_outer_extensions, ECH: types 0/1/2, empty enc, empty/short payload, every header truncation, trailing bytes) in the outer hello with/without keys and inside a SEALED inner hello; (b) reference lists (missing, repeated, 127 entries, naming ECH); (c) every length field of plain/sealed/garbage hellos set to {0, true-1, true+1, max} and all pairs of fields; the message cut at every byte; (d) first record of every content type x length {0,1,5}, declared lengths up to 65535; (e) after an accepted / passed-through hello: every record over 7 content types x 5 lengths in either direction, all ordered pairs, ServerHello/HRR cut at every byte, length lies, split at every 3rd offset, illegal declared lengths written in 40 kB pieces, 3000 tiny records per call; (f) after HRR: second hello cut at every byte, every length field mutated, extra extensions. Oracles: no panic (recovered), no call returns 0,nil without consulting the transport, bytes allocated by the calls <= 88x the bytes moved + 12 records per call (TotalAlloc delta), heap retained by the Conn after the calls <= 4 records + 16 KiB (measured with forced GC, GOMAXPROCS=1, harness-held bytes subtracted, confirmed by re-execution), no call longer than 20 s. distinct = distinct case indexes with distinct bytes")
 	r.Assume("byte noise outside the grammar is not explored (that would be fuzzing, another family)", "memory bound applies to what the Conn retains after a call returns; a single Write call may transiently hold the caller's own buffer")
-	self, err := os.Executable()
-	if err != nil {
-		ev.ToolError("%v", err)
-	}
-	n := runtime.NumCPU()
-	if n > 16 {
-		n = 16
-	}
-	type wres struct {
-		lines []string
-		err   error
-		code  int
-	}
-	results := make([]wres, n)
-	var wg sync.WaitGroup
-	for i := 0; i < n; i++ {
-		wg.Add(1)
-		go func(i int) {
-			defer wg.Done()
-			cmd := exec.Command("bash", "-c", fmt.Sprintf("ulimit -v 4194304; exec %q C08 worker %s %d %d", self, r.Tier, i, n))
-			cmd.Env = append(os.Environ(), "GOMAXPROCS=1", "GOGC=50")
-			out, err := cmd.Output()
-			results[i].lines = strings.Split(string(out), "\n")
-			results[i].err = err
-			if ee, ok := err.(*exec.ExitError); ok {
-				results[i].code = ee.ExitCode()
-				results[i].lines = append(results[i].lines, "STDERR:"+string(ee.Stderr))
-			}
-		}(i)
-	}
-	wg.Wait()
-	total, done := 0, 0
-	for i, wr := range results {
-		sawSummary := false
-		for _, l := range wr.lines {
-			if !strings.HasPrefix(l, "{") {
-				continue
-			}
-			var m map[string]any
-			if json.Unmarshal([]byte(l), &m) != nil {
-				continue
-			}
-			switch {
-			case m["summary"] == true:
-				sawSummary = true
-				total = int(m["total"].(float64))
-				done += int(m["cases"].(float64))
-				for k, v := range m["outcomes"].(map[string]any) {
-					r.Outcome(k, int64(v.(float64)))
-				}
-			case m["sample"] != nil:
-				r.Sample(m["sample"])
-			case m["violation"] != nil:
-				r.Violation(m["violation"].(string), fmt.Sprint(m["what"]), m)
-			}
-		}
-		if !sawSummary {
-			// worker died (out of memory, fatal error, hang exit) without a summary: that is itself a finding unless it reported a violation line
-			tail := wr.lines
-			if len(tail) > 15 {
-				tail = tail[len(tail)-15:]
-			}
-			if wr.code == 3 {
-				continue // hang already reported via its violation line
-			}
-			r.Violation(fmt.Sprintf("worker-died:shard%d", i), fmt.Sprintf("worker %d exited with %v without finishing; tail:\n%s", i, wr.err, strings.Join(tail, "\n")), nil)
-		}
-	}
-	// distinct count: cases are distinct by construction of the generator (measured: distinct (first,ops) byte strings)
-	cases := generate(r.Thorough())
-	for _, k := range cases {
+	generate(r.Thorough(), func(k kase) {
 		key := string(k.First)
 		for _, o := range k.Ops {
 			key += "|" + string(o.Dir) + string(o.Data)
@@ -652,9 +558,13 @@ func Run(r *ev.Run) {
 			key += "|keys"
 		}
 		r.Eval(key, "")
-	}
+	})
+	done, total := workers.Spawn(r, "C08", 4*1024*1024)
 	r.Set("cases", total)
 	r.Set("cases_executed_by_workers", done)
+	if done != total {
+		r.Cap(fmt.Sprintf("workers executed %d of %d cases", done, total))
+	}
 	// deadline clause: scheduler-based exploration by the instrumented binary
 	r.RunSub(os.Getenv("VERIF_INSTR_BIN"), "C08D", "deadline_clause")
 	if done != total {
